@@ -125,7 +125,7 @@ pub fn render(e: &Value, syn: &str, out: &mut Vec<u32>) {
     }
 }
 
-fn gen_ast(rng: &mut Rng, size: usize, alpha: &[u32], apo: bool, rep: bool) -> Value {
+pub fn gen_ast(rng: &mut Rng, size: usize, alpha: &[u32], apo: bool, rep: bool) -> Value {
     if size <= 1 {
         return match rng.below(8) {
             0 => json!({"t": "any"}),
